@@ -148,6 +148,28 @@ Section Mat.
   Lemma mid_r : forall X, meq (mmul X (mid (cols X))) X.
   Proof. intros. repeat split. simpl. intros i j _ Hj. now apply (sumn_delta_r (cols X) j (fun k => ent X i k)). Qed.
 
+  (* transposition *)
+  Definition mtrans (X : M) : M := mk (cols X) (rows X) (fun i j => ent X j i).
+  Lemma mtrans_invol : forall X, meq (mtrans (mtrans X)) X.
+  Proof. intros. repeat split. Qed.
+  Lemma mtrans_mmul : forall X Y, cols X = rows Y -> meq (mtrans (mmul X Y)) (mmul (mtrans Y) (mtrans X)).
+  Proof.
+    intros X Y D. repeat split. simpl. intros i j _ _. rewrite <- D. apply sumn_ext. intros; ring.
+  Qed.
+  Lemma mtrans_madd : forall X Y, meq (mtrans (madd X Y)) (madd (mtrans X) (mtrans Y)).
+  Proof. intros. repeat split. Qed.
+  Lemma mtrans_mscale : forall a X, meq (mtrans (mscale a X)) (mscale a (mtrans X)).
+  Proof. intros. repeat split. Qed.
+  (* diagonal and rank-one matrices *)
+  Definition mdiag (n : nat) (d : nat -> A) : M := mk n n (fun i j => if Nat.eqb i j then d i else 0).
+  Definition mouter (m n : nat) (c r : nat -> A) : M := mk m n (fun i j => c i * r j).
+  Lemma mdiag_trans : forall n d, meq (mtrans (mdiag n d)) (mdiag n d).
+  Proof.
+    intros. repeat split. simpl. intros i j _ _. rewrite (Nat.eqb_sym j i). destruct (Nat.eqb_spec i j); [now subst|reflexivity].
+  Qed.
+  Lemma mouter_trans : forall m n c r, meq (mtrans (mouter m n c r)) (mouter n m r c).
+  Proof. intros. repeat split. simpl. intros. ring. Qed.
+
   (* concrete matrices from lists of rows (used by the correspondence check) *)
   Definition of_rows (r c : nat) (l : list (list A)) : M := mk r c (fun i j => nth j (nth i l []) 0).
 End Mat.
